@@ -149,8 +149,9 @@ variable {α : Type} [Inhabited α]
 def new (numVectors : Int) (timeAxis : Int) (padMode : Option (PadMode α)) : Except Err (Stack α) :=
   if numVectors < 1 then .error .value else .ok ⟨numVectors.toNat, timeAxis, padMode⟩
 
-/-- the `features.ndim == 2` branch: `[.T] [:T] .reshape(nT, nF) [.T]` -/
-def path2d (timeAxis T nT nF : Nat) (x : Tensor α) : Except Err (Tensor α) := do
+/-- the `features.ndim == 2` branch: `[.copy()] [.T] [:T] .reshape(nT, nF) [.T]` -/
+def path2d (inPlace : Bool) (timeAxis T nT nF : Nat) (x : Tensor α) : Except Err (Tensor α) := do
+  let x := if !inPlace then x.copy else x
   let y := if timeAxis ≠ 0 then x.transpose else x
   let y := y.sliceAxis 0 0 T 1
   let y ← y.reshape [nT, nF]
@@ -193,9 +194,11 @@ def prepare (c : Stack α) (x : Tensor α) (axis : Int) : Except Err (Prep α) :
 
 /-- `Stack.apply(features, axis)`.  `in_place` only chooses between a copy and a view in the 2-D
 branch; the returned values are the same. -/
-def apply (c : Stack α) (x : Tensor α) (axis : Int) : Except Err (Tensor α) := do
+def apply (c : Stack α) (x : Tensor α) (axis : Int) (inPlace : Bool := false) : Except Err (Tensor α) := do
   let p ← prepare c x axis
-  if x.shape.length = 2 then path2d p.ta p.T p.nT p.nF p.x1
+  -- after padding the code sets `in_place = True` (the padded array is already a fresh one)
+  let inPlace := inPlace || (c.padMode.isSome && x.shape.getD p.ta 0 % c.numVectors != 0)
+  if x.shape.length = 2 then path2d inPlace p.ta p.T p.nT p.nF p.x1
   else pathNd c.numVectors p.ta p.ax p.T p.x1
 
 /-- `apply` with the 2-D special case deleted (every input takes the strided N-D branch);
@@ -205,6 +208,21 @@ def applyNd (c : Stack α) (x : Tensor α) (axis : Int) : Except Err (Tensor α)
   pathNd c.numVectors p.ta p.ax p.T p.x1
 
 end Stack
+
+/-! ## what a call leaves behind
+
+`(returned value, the caller's array after the call)`.  Neither `apply` contains a statement that stores
+into `features`: Deltas' only item assignment targets the fresh `delta_feat`; Stack only re-binds the
+local name (`np.pad`, `.copy()`, `.T`, slicing, `reshape`, `concatenate`).  In a value model that is all
+there is to say; NumPy's view / copy aliasing is outside it (the harness checks the array on every run). -/
+
+def Deltas.applyIO {α : Type} [NatCast α] [Add α] [Sub α] [Mul α] [Div α] [Zero α] [Inhabited α]
+    (c : Deltas α) (x : Tensor α) (axis : Int) (_inPlace : Bool) : Except Err (Tensor α) × Tensor α :=
+  (c.apply x axis, x)
+
+def Stack.applyIO {α : Type} [Inhabited α]
+    (c : Stack α) (x : Tensor α) (axis : Int) (inPlace : Bool) : Except Err (Tensor α) × Tensor α :=
+  (c.apply x axis inPlace, x)
 
 /-! ## `np.pad` modes expressed through `PadMode.other` (run by the driver at `Rat`) -/
 namespace Pad
